@@ -262,3 +262,61 @@ class BranchReal(SymReal):
   def __eq__(self, o): return SymBool(self.t == self._lift(o))
   def __ne__(self, o): return SymBool(self.t != self._lift(o))
   __hash__ = None
+
+
+class SymInt:
+  """Symbolic integer (z3 Int term) that runs through real Python integer code: + - * // % stay integers, true division gives a SymReal,
+  math.ceil / math.floor of a SymReal come back as SymInt.  Truthiness is only defined for values DECLARED positive (`positive=True`, part of the
+  stated precondition); any other branching on a symbolic value raises."""
+
+  def __init__(self, t, positive=False):
+    self.t = t if isinstance(t, z3.ExprRef) else z3.IntVal(int(t))
+    self.positive = positive
+
+  @staticmethod
+  def _lift(o):
+    if isinstance(o, SymInt):
+      return o.t
+    if isinstance(o, (int, np.integer)) and not isinstance(o, bool):
+      return z3.IntVal(int(o))
+    raise TypeError(f'SymInt arithmetic with {type(o).__name__}')
+
+  def __add__(self, o): return SymInt(self.t + self._lift(o))
+  __radd__ = __add__
+  def __sub__(self, o): return SymInt(self.t - self._lift(o))
+  def __rsub__(self, o): return SymInt(self._lift(o) - self.t)
+  def __mul__(self, o): return SymInt(self.t * self._lift(o), positive=self.positive and (getattr(o, 'positive', False) or (isinstance(o, int) and o > 0)))
+  __rmul__ = __mul__
+  def __neg__(self): return SymInt(-self.t)
+  def __floordiv__(self, o): return SymInt(self.t / self._lift(o))            # z3 Int division = floor for a positive divisor (declared in the precondition)
+  def __mod__(self, o): return SymInt(self.t % self._lift(o))
+  def __truediv__(self, o): return SymReal(z3.ToReal(self.t) / z3.ToReal(self._lift(o)))
+  def __rtruediv__(self, o): return SymReal(z3.ToReal(self._lift(o)) / z3.ToReal(self.t))
+  def __index__(self): raise TypeError('symbolic integer used as a concrete index')
+  def __bool__(self):
+    if self.positive:
+      return True
+    raise TypeError('branching on a symbolic integer')
+  def _cmp(self, o, op): return SymBool(op(self.t, self._lift(o)))
+  def __le__(self, o): return self._cmp(o, lambda a, b: a <= b)
+  def __lt__(self, o): return self._cmp(o, lambda a, b: a < b)
+  def __ge__(self, o): return self._cmp(o, lambda a, b: a >= b)
+  def __gt__(self, o): return self._cmp(o, lambda a, b: a > b)
+  def __hash__(self): return hash(self.t)
+
+
+class SymBool:
+  def __init__(self, t): self.t = t
+  def __bool__(self): raise TypeError('branching on a symbolic comparison')
+
+
+def _symreal_ceil(self):
+  return SymInt(-z3.ToInt(-self.t))
+
+
+def _symreal_floor(self):
+  return SymInt(z3.ToInt(self.t))
+
+
+SymReal.__ceil__ = _symreal_ceil
+SymReal.__floor__ = _symreal_floor
